@@ -136,6 +136,8 @@ def parse_input_const_value_node(
         return generate_constant(None)
 
     if isinstance(node, EnumValueNode):
+        if nested_object:
+            return generate_constant(node.value)
         return generate_name(f"{field_type}.{node.value}")
 
     if isinstance(node, ListValueNode):
